@@ -160,14 +160,16 @@ type recExporter struct {
 func (e *recExporter) Temporality(sdk.InstrumentKind) metricdata.Temporality { return e.temp }
 func (e *recExporter) Aggregation(k sdk.InstrumentKind) sdk.Aggregation      { return aggSel(e.aggMode)(k) }
 
-// aggSel: three spellings of "the default aggregation" a reader may answer with.
+// aggSel: four spellings of "the default aggregation" a reader may answer with.
 func aggSel(mode int) sdk.AggregationSelector {
 	return func(k sdk.InstrumentKind) sdk.Aggregation {
-		switch mode % 3 {
+		switch mode % 4 {
 		case 1:
 			return nil
 		case 2:
 			return sdk.AggregationDefault{}
+		case 3: // a mis-configured aggregation (boundaries not increasing): reported, and the default is used instead
+			return sdk.AggregationExplicitBucketHistogram{Boundaries: []float64{10, 5}}
 		default:
 			return sdk.DefaultAggregationSelector(k)
 		}
@@ -387,7 +389,7 @@ func build(w *vgen.Writer, r *vgen.Rand, desc any, cfgs []readerCfg, nInst int, 
 		}
 		wd.wantT = append(wd.wantT, t)
 		if c.periodic {
-			e := &recExporter{temp: t, aggMode: r.Intn(3)}
+			e := &recExporter{temp: t, aggMode: r.Intn(4)}
 			e.ext = wd.extractor(t)
 			popts := []sdk.PeriodicReaderOption{sdk.WithInterval(interval), sdk.WithTimeout(60 * time.Second)}
 			if periodicExtra != nil {
